@@ -59,7 +59,7 @@ pub fn cases(tier: Tier) -> Vec<Case> {
                     }
                     // other legal shapes of the credential public key
                     if rp == 1 && matches!(counter, 1 | 4) {
-                        for a in 2..6u8 {
+                        for a in 2..16u8 {
                             atts.push(Some((a, 16)));
                         }
                     }
@@ -163,6 +163,19 @@ fn build(c: &Case) -> Result<Built, String> {
                 params: vec![(coset::Label::Int(-3), Cbor::Bytes(y)), (coset::Label::Int(-2), Cbor::Bytes(x)), (coset::Label::Int(-1), Cbor::Integer((iana::EllipticCurve::P_256 as i64).into()))],
                 ..Default::default()
             },
+            // algorithm and curve crossed: ES256 on other curves (32-byte coordinates all the same),
+            // other algorithms on P-256, no algorithm - the key section says what the key says
+            6..=10 => {
+                let crv = [iana::EllipticCurve::P_384 as i64, iana::EllipticCurve::P_521 as i64, iana::EllipticCurve::Secp256k1 as i64, iana::EllipticCurve::Ed25519 as i64, 99][(a - 6) as usize];
+                coset::CoseKey {
+                    kty: coset::RegisteredLabel::Assigned(iana::KeyType::EC2),
+                    alg: Some(coset::RegisteredLabelWithPrivate::Assigned(iana::Algorithm::ES256)),
+                    params: vec![(coset::Label::Int(-1), Cbor::Integer(crv.into())), (coset::Label::Int(-2), Cbor::Bytes(x)), (coset::Label::Int(-3), Cbor::Bytes(y))],
+                    ..Default::default()
+                }
+            }
+            11..=14 => coset::CoseKeyBuilder::new_ec2_pub_key(iana::EllipticCurve::P_256, x, y).algorithm([iana::Algorithm::ES384, iana::Algorithm::ES512, iana::Algorithm::ES256K, iana::Algorithm::EdDSA][(a - 11) as usize]).build(),
+            15 => coset::CoseKeyBuilder::new_ec2_pub_key(iana::EllipticCurve::P_256, x, y).build(),
             _ => coset::CoseKeyBuilder::new_ec2_pub_key(iana::EllipticCurve::P_256, x, y).algorithm(iana::Algorithm::ES256).build(),
         };
         let acd = AttestedCredentialData::new(Aaguid::from(ag), cid.clone(), key).map_err(|e| format!("constructor refused a {l}-byte id: {e}"))?;
